@@ -81,6 +81,8 @@ package m
 //@   modifies nothing
 //@   update when result == nil: addr.verified = true
 //@   ensures accepted-only-if-valid [C01,C13]: result == nil ==> hashvalid(addr.Hash) && addr.Type == "Ed25519" && len(addr.PublicKey) == 32 && addr.IP.IsValid()
+//@   ensures accepted-only-in-the-base-net [C01]: result == nil ==> uf("prefixContains", bool, BaseNetPrefix, addr.IP)
+//@   callsite VerifyAddressKey own-identity-fields [C01]: arg0 == addr.IP && arg1 == addr.Hash && arg2 == addr.Type && base(arg3) == base(addr.PublicKey) && len(arg3) == len(addr.PublicKey) && arg4 == addr.Easing
 
 // An Address (an identity with its private key) only leaves its constructors after both key sizes were checked.
 //@ type Address
